@@ -60,8 +60,15 @@ def uescape(ch):
     return '\\u%04x\\u%04x' % (0xd800 + (cp >> 10), 0xdc00 + (cp & 0x3ff))
 
 
+WORD_STRINGS = ['"undefined"', '"null"', '"true"', '"false"', '"NaN"', '"Infinity"', '"-0"', '"0"', '""', '"__proto__"',
+                '"constructor"', '"use strict"', '"[object Object]"', '"1e3"']
+
+
 @st.composite
 def json_string(draw):
+    if draw(st.integers(0, 19)) == 0:
+        # strings whose content is spelled like a keyword, a number or a special name
+        return draw(st.sampled_from(WORD_STRINGS)), False
     chars = draw(st.lists(SAFE_CHARS, max_size=8))
     out = ['"']
     escaped = False
